@@ -1,9 +1,11 @@
 #!/bin/bash
-# keep4.sh: confirm + run + store the round-4 seeds that are not stored yet (run from a snapshot via `vp run`)
+# keep_round.sh <round>: confirm + run + store the seeds of that round that are not stored yet (run from a snapshot via `vp run`)
+r=$1
 cd "$(dirname "$0")/.."
 [ -x .venv/bin/python ] || sh setup.sh >/dev/null 2>&1
 for n in 01 02 03 04 07 08 09 10 11 12 13 14 15 16 17 18 19 20; do
-  for d in /tmp/w4_c$n/_seed/c${n}_*/; do
+  for d in /tmp/w${r}_c$n/_seed/c${n}_*/; do
+    [ -f $d/patch.diff ] || continue
     name=$(basename $d)
     [ -f /verif/seeded/$name/meta.json ] && continue
     .venv/bin/python tools/keep_seed.py $d C$n quick 2>&1 | grep -v WARNING | head -3
